@@ -406,3 +406,28 @@ where
     }
     Ok(())
 }
+
+/// Verification-only access to the rule: builds the production reserve handler and calls the
+/// original `has_reserve_violation` (see /verif).
+#[cfg(grevm_verif)]
+pub(crate) fn verif_has_reserve_violation<EVM, ERROR, FRAME>(
+    evm: &mut EVM,
+    txid: TxId,
+    planner: &ReservePlanner,
+    checkpoint: JournalCheckpoint,
+) -> Result<bool, ERROR>
+where
+    EVM: EvmTr<
+            Context: ContextTr<
+                Block = BlockEnv,
+                Tx = TxEnv,
+                Journal: JournalTr<State = EvmState> + ReserveJournalExt,
+            >,
+            Frame = FRAME,
+        >,
+    ERROR: EvmTrError<EVM>,
+    FRAME: FrameTr<FrameResult = FrameResult, FrameInit = FrameInit>,
+{
+    WithReserveHandler::<EVM, ERROR, FRAME>::new(txid, planner, BeneficiaryMode::Immediate)
+        .has_reserve_violation(evm, checkpoint)
+}
